@@ -91,10 +91,13 @@ class Function:
                     while self.nodes[t]["k"] in ("Paren", "ICast", "Cast"):
                         t = self.nodes[t]["ch"][0]
                     if self.nodes[t]["k"] == "DeclRef":
-                        stored[self.nodes[t].get("decl")] = True
+                        stored.setdefault(self.nodes[t].get("decl"), []).append(nd["ch"][1] if (nd["k"] == "Assign" and nd.get("op") == "=") else None)
             for nd in self.nodes:
-                if nd["k"] == "Var" and "inl" not in nd and nd["name"] not in known and nd["ch"] and not nd.get("static") and nd["decl"] not in stored:
-                    v = nd["ch"][0]
+                hasinit = bool(nd.get("ch")) and nd["k"] == "Var" and self.nodes[nd["ch"][0]]["k"] != "Absent"
+                # declared with the path, or declared bare and assigned it exactly once
+                once = nd["k"] == "Var" and not hasinit and len(stored.get(nd.get("decl"), [])) == 1 and stored[nd["decl"]][0] is not None
+                if nd["k"] == "Var" and "inl" not in nd and nd["name"] not in known and not nd.get("static") and ((hasinit and nd["decl"] not in stored) or once):
+                    v = nd["ch"][0] if hasinit else stored[nd["decl"]][0]
                     j = v
                     okp = True
                     st = [j]
@@ -103,7 +106,7 @@ class Function:
                         kx = self.nodes[x]["k"]
                         if kx in ("Paren", "ICast", "Cast", "Member"):
                             st.extend(self.nodes[x]["ch"])
-                        elif kx == "DeclRef" and self.nodes[x].get("ref") == "param":
+                        elif kx == "DeclRef" and (self.nodes[x].get("ref") == "param" or self.nodes[x].get("decl") in self.new_aliases):
                             pass
                         else:
                             okp = False
@@ -666,6 +669,45 @@ class CFG:
             for s in ss:
                 if s is not None:
                     self.preds[s].append(b["id"])
+        # straight-line chains are one block: a block that only falls through into a block nothing else
+        # enters (as left behind where a helper's body was presented at its call) is merged with it, so
+        # that "in the same block" means "nothing can happen in between" however the code was cut up
+        changed = True
+        while changed:
+            changed = False
+            for bid in list(self.blocks):
+                blk = self.blocks.get(bid)
+                if blk is None or bid == self.exit:
+                    continue
+                ss = self.succs.get(bid, [])
+                if len(ss) != 1 or ss[0] is None or ss[0] in (self.exit, self.entry, bid):
+                    continue
+                if blk.get("term") is not None or blk.get("cond") is not None:
+                    continue
+                sid = ss[0]
+                sb = self.blocks[sid]
+                if self.preds.get(sid, []) != [bid] or sb.get("label") is not None:
+                    continue
+                if bid == self.entry and not blk["elems"] and False:
+                    continue
+                # merge sid into bid
+                nb = dict(blk)
+                nb["elems"] = list(blk["elems"]) + list(sb["elems"])
+                for k_ in ("term", "termk", "cond"):
+                    if k_ in sb:
+                        nb[k_] = sb[k_]
+                nb["succs"] = list(self.succs[sid])
+                self.blocks[bid] = nb
+                self.succs[bid] = self.succs[sid]
+                for t in self.succs[sid]:
+                    if t is not None:
+                        self.preds[t] = [bid if x == sid else x for x in self.preds[t]]
+                del self.blocks[sid]
+                del self.succs[sid]
+                self.preds.pop(sid, None)
+                changed = True
+        c = dict(c)
+        c["blocks"] = [self.blocks[b_] for b_ in self.blocks]
         # position of each node id in the CFG
         self.pos = {}
         for b in c["blocks"]:
